@@ -215,9 +215,20 @@ abbrev TypeTable := List (Nat × List (QN × Nat))
 def TypeTable.decls (T : TypeTable) (i : Nat) : List (QN × Nat) :=
   match T.find? (·.1 == i) with | some e => e.2 | none => []
 
+mutual
+/-- the leaves that are part of the model: a particle with `maxOccurs = 0` (leaf or group, the
+    root included) is no particle at all -/
+def Particle.liveLeaves : Particle → List Leaf
+  | .leaf l _ hi => if hi == some 0 then [] else [l]
+  | .group _ _ _ hi ps => if hi == some 0 then [] else ps.liveLeaves
+def Particles.liveLeaves : Particles → List Leaf
+  | .nil => []
+  | .cons p ps => p.liveLeaves ++ ps.liveLeaves
+end
+
 /-- all (name, type id) declarations directly or implicitly contained in the model -/
 def declsOf (T : TypeTable) (p : Particle) : List (QN × Nat) :=
-  p.leaves.flatMap fun l => match l with | .elem i _ => T.decls i | .any _ _ => []
+  p.liveLeaves.flatMap fun l => match l with | .elem i _ => T.decls i | .any _ _ => []
 
 /-- O: same name ⇒ same type, over all pairs -/
 def edcCheck (T : TypeTable) (p : Particle) : Bool :=
